@@ -443,7 +443,12 @@ func (p *provRunner) genOne(r *Rng, prof provProfile) string {
 		return fmt.Sprintf("rmval v=%d", v)
 	default:
 		if r.chance(50) {
-			return fmt.Sprintf("setparams s=%s M=%d", []string{"gov", "gov", "u1"}[r.intn(3)], 1+r.intn(prof.nv+1))
+			m := int64(1 + r.intn(prof.nv+1))
+			if r.chance(15) {
+				// values around the 32-bit boundary and the largest the parameter can hold
+				m = []int64{4294967295, 4294967296, 4294967297, 1099511627778, 9223372036854775807, 2147483648}[r.intn(6)]
+			}
+			return fmt.Sprintf("setparams s=%s M=%d", []string{"gov", "gov", "u1"}[r.intn(3)], m)
 		}
 		return fmt.Sprintf("denoms s=%s add=%s rm=%s", []string{"gov", "gov", "u1"}[r.intn(3)], []string{"", "stake", "photon"}[r.intn(3)], []string{"", "stake"}[r.intn(2)])
 	}
@@ -578,8 +583,25 @@ func (p *provRunner) genSlash(r *Rng, prof provProfile) string {
 		k, _ := strconv.Atoi(f[0])
 		keys = append(keys, k)
 	}
+	// validators of this consumer's set that have meanwhile left the bonded set (unbonding, not jailed)
+	var leaving []int
+	for _, e := range splitNE(st["valset"]) {
+		f := strings.Split(e, ":")
+		if len(f) != 4 {
+			continue
+		}
+		for _, se := range splitNE(p.prevG["stk"]) {
+			sf := strings.Split(se, ":")
+			if len(sf) >= 4 && sf[0] == f[0] && sf[2] == "2" && sf[3] == "0" {
+				k, _ := strconv.Atoi(f[1])
+				leaving = append(leaving, k)
+			}
+		}
+	}
 	key := r.intn(prof.nv + prof.nvExtra)
-	if len(keys) > 0 && r.chance(75) {
+	if len(leaving) > 0 && r.chance(45) {
+		key = leaving[r.intn(len(leaving))]
+	} else if len(keys) > 0 && r.chance(75) {
 		key = keys[r.intn(len(keys))]
 	} else if r.chance(40) {
 		key = p.genKey(r, prof)
@@ -706,7 +728,7 @@ func init() {
 	hs := provProfile{name: "handshake", nv: 4, maxvals: 4, M: 3, epoch: 2, unb: 10 * sec, conns: 2,
 		wCreate: 14, wUpdate: 10, wRemove: 5, wOpt: 18, wAssign: 2, wStake: 4, wBlock: 22, wChan: 25, topn: false}
 	streams["handshake"] = StreamDef{New: func(t *Trace) Runner { return newProvRunner(t) }, Gen: genProv(hs)}
-	sl := provProfile{name: "slash", nv: 5, nvExtra: 1, maxvals: 5, M: 4, epoch: 2, unb: 15 * sec, keyPool: 5, lowPower: true,
+	sl := provProfile{name: "slash", nv: 5, nvExtra: 1, maxvals: 4, M: 4, epoch: 3, unb: 15 * sec, keyPool: 5, lowPower: true,
 		replenish: 8 * sec, frac: "0.300000000000000000",
 		wCreate: 5, wUpdate: 5, wRemove: 2, wOpt: 16, wAssign: 10, wStake: 10, wBlock: 26, wChan: 10, wSlash: 30, wVal: 2}
 	streams["slash"] = StreamDef{New: func(t *Trace) Runner { return newProvRunner(t) }, Gen: genProv(sl)}
